@@ -163,10 +163,16 @@ func (s *Server) handleConn(c *Conn) error {
 			cmd, arg, err := parseCmd(line)
 			if err != nil {
 				c.protocolError(501, EnhancedCode{5, 5, 2}, "Bad command")
-				continue
+			} else {
+				c.handle(cmd, arg)
 			}
 
-			c.handle(cmd, arg)
+			// Once the connection has been closed from our side (QUIT,
+			// too many errors, panic) the lines that are already
+			// buffered must not be executed.
+			if c.isClosed() {
+				return nil
+			}
 		} else {
 			if err == io.EOF || errors.Is(err, net.ErrClosed) {
 				return nil
